@@ -303,6 +303,14 @@ FUN_TEMPLATES = [
     ("(!x::nat. (x = 0 --> of_nat x = (0::real)) & (x = 1 --> of_nat x = (1::real))) --> false", False),
     ("!x::nat. of_nat x >= (0::real)", True), ("of_nat n >= (0::real)", True), ("(!k::nat. f k = g k) --> f n = g n", True),
     ("(!k::nat. f k <= g k) --> f n < g n", False),
+    # truncated subtraction with a COMPOUND operand that contains the bound variable, in a quantified premise that the
+    # conclusion needs at two instances: the subtraction belongs under the binder.  The premises are bounded (x < 10): on
+    # the unbounded forms Z3, which holpy calls without a time limit, does not return.
+    ("(!x::nat. x < 10 --> g x = (x + 2) - 1) --> g 0 = g 7", False), ("(!x::nat. x < 10 --> g x = (x + 2) - 1) --> g 3 = 4", True),
+    ("(!x::nat. x < 10 --> f x = (x + 1) - 3) --> f 0 = f 5", False),
+    ("(!x::nat. x < 3 --> f x = (g x + 1) - 3) --> g 0 = 5 --> g 1 = 0 --> f 0 = f 1", False),
+    ("(!x::nat. x < 3 --> f x = (g x + 1) - 3) --> g 0 = 5 --> g 1 = 0 --> f 0 = 3 & f 1 = 0", True),
+    ("(!x::nat. x < 10 --> f x = 5 - (x + x)) --> f 1 = f 4", False), ("(!x::nat. x < 10 --> f x = 5 - (x + x)) --> f 3 = f 4", True),
 ]
 
 
